@@ -6,6 +6,8 @@ another id), so that each property's check discharges - and a violation is repor
   C17  <- fold_settings of tensor parameters (requires_grad and dtype of the folded storage are those of the first member)
   C04  <- the optimisation rule applied to the parameters multiply / integrate produce (ReduceSum o OuterProduct)
   C03  <- same rule (integrals of products of embedding layers)
+  C14  <- the parameter-graph pattern matcher (composite parameter graphs still evaluate to the composition of their nodes under optimize)
+  C10  <- every operator rule (their sharing clauses: no new tensor parameter, operand tensors only behind references)
 """
 import re
 
@@ -29,6 +31,12 @@ _COPIES = [
     (r"^C12\.build_circuit\.", "C16"),
     (r"^C02\.fold_settings\.TorchIndexParameter", "C04"),
     (r"^C02\.rebuild_from_config\.TorchIndexParameter", "C04"),
+    (r"^C02\.opt\.match_parameter_nodes_pattern", "C14"),
+    (r"^C03\.rule\.integrate_", "C10"),
+    (r"^C04\.rule\.multiply_", "C10"),
+    (r"^C05\.rule\.differentiate_", "C10"),
+    (r"^C07\.rule\.conjugate_", "C10"),
+    (r"^C19\.frame\.reset_parameters\.", "C10"),
 ]
 
 _existing = {o.id for o in V.REGISTRY}
